@@ -347,7 +347,18 @@ class IndexMediaFile(HTMLHandlerBase):
             return jsonify(result, status=401)
 
         mf = current_media_file
-        if mf.parse_media_file():
+        try:
+            parsed: bool = mf.parse_media_file()
+        except Exception as err:  # pylint: disable=broad-except
+            # a damaged file can make the MP4 parser fail in many ways
+            logging.warning('Failed to parse %s: %s', mf.name, err)
+            models.db.session.rollback()
+            result['errors'].append(
+                html.escape(f'Failed to parse media file: {type(err).__name__}: {err}'))
+            csrf_key = self.generate_csrf_cookie()
+            result["csrf"] = self.generate_csrf_token('files', csrf_key)
+            return jsonify(result)
+        if parsed:
             models.db.session.commit()
             result.update({
                 "indexed": mf.pk,
@@ -536,10 +547,16 @@ class MediaSegmentInfo(SegmentInfoBase):
         options = mp4.Options(lazy_load=False)
         if current_media_file.representation.encrypted:
             options.iv_size = current_media_file.representation.iv_size
-        with current_media_file.open_file(start=frag.pos, buffer_size=16384) as reader:
-            src = BufferedReader(
-                reader, offset=frag.pos, size=frag.size, buffersize=16384)
-            atom = mp4.Mp4Atom.load(src, options=options, use_wrapper=True)
+        try:
+            with current_media_file.open_file(start=frag.pos, buffer_size=16384) as reader:
+                src = BufferedReader(
+                    reader, offset=frag.pos, size=frag.size, buffersize=16384)
+                atom = mp4.Mp4Atom.load(src, options=options, use_wrapper=True)
+        except Exception as err:  # pylint: disable=broad-except
+            logging.warning('Failed to parse segment %s of %s: %s',
+                            segnum, current_media_file.name, err)
+            return flask.make_response(
+                html.escape(f'Failed to parse segment: {type(err).__name__}: {err}'), 400)
         back_url = flask.url_for(
             'list-media-segments', spk=current_stream.pk, mfid=current_media_file.pk)
         full_title: str = f'Segment {segnum} in fille "{current_media_file.blob.filename}"'
@@ -623,7 +640,12 @@ class InspectMediaFile(SegmentInfoBase):
         print('blob_info', dir(blob_info))
         options = mp4.Options(lazy_load=False)
         src = BufferedReader(blob_info)
-        atom = mp4.Mp4Atom.load(src, options=options, use_wrapper=True)
+        try:
+            atom = mp4.Mp4Atom.load(src, options=options, use_wrapper=True)
+        except Exception as err:  # pylint: disable=broad-except
+            logging.warning('Failed to parse %s: %s', blob_info.filename, err)
+            return flask.make_response(
+                html.escape(f'Failed to parse file: {type(err).__name__}: {err}'), 400)
         back_url = flask.url_for('inspect-media')
         full_title: str = f"Contents of {blob_info.filename}"
         short_title: str = blob_info.filename
